@@ -85,8 +85,10 @@ def shape(rng, i):
            "    a",
            "  end",
            "  def *gen: Int",
+           "    var n: Int = 0",
            "    loop",
-           "      yield 1",
+           "      yield n",
+           "      n += 1",     # `yield` as the last statement of a loop body hits C29-generator-void-end (see shape genloop:yield-last)
            "    end",
            "  end"]
     label = kind
@@ -157,6 +159,9 @@ def shape(rng, i):
             body, label = ["sleep(30.seconds)"], "sleep:long"
         src = pre + ["  def spin: Int"] + ["    " + b for b in body] + ([] if label == "sleep:loop" else ["    0"]) + ["  end", "end", mod + ".spin"]
     else:  # genloop
+        if rng.random() < 0.3:
+            label = "genloop:yield-last"
+            pre = pre[:5] + ["  def *gen: Int", "    loop", "      yield 1", "    end", "  end"]
         fn = ["  def spin: Int", "    var t: Int = 0", "    for x in " + mod + ".gen()", "      t += x",
               "      continue if t > 5" if rng.random() < 0.5 else "      t -= 1", "    end", "    t", "  end"]
         src = pre + fn + ["end", mod + ".spin"]
@@ -267,7 +272,7 @@ def run_abort(reqs, timeout=1200):
 
 def shape_class(label):
     """coarse class of a shape label for the findings list: loop kind is irrelevant, the jump position is not"""
-    m = re.search(r"(continue-[a-z-]+|loop-in-finally|plain|pop-[a-z]+|push-full|long)", label)
+    m = re.search(r"(continue-[a-z-]+|loop-in-finally|plain|pop-[a-z]+|push-full|long|yield-last)", label)
     base = label.split(":")[0]
     return base + (":" + m.group(1) if m else "") + (":labeled" if "labeled" in label else "")
 
@@ -381,7 +386,7 @@ def run(ctx):
             continue
         seen_cls.add(cls)
         sig = st[0] if st else "no-static-cycle"
-        ctx.violation("not-cancellable" if oc == "hang" else "cancel-" + str(oc),
+        ctx.violation("not-cancellable" if oc == "hang" else "cancel-crash",
                       {"program": src, "delay_ms": d, "shape": cls, "sig": sig},
                       "shape %s: cancelled after %d ms, outcome %s within 1 s (%s); static: %s"
                       % (lab, d, oc, a.get("panic") or a.get("err_class") or "", sig))
